@@ -43,7 +43,7 @@ NESTED = ['none', 'call', 'copy', 'request', 'response', 'ombott', 'mutq', 'st52
 QS = 'tok=1&k=v&k=w'        # the same query string for every request of every application
 
 
-LOOKUPS = ('onlyA', 'onlyB', 'api404', 'sca')
+LOOKUPS = ('onlyA', 'onlyB', 'api404', 'sca', 'shared')
 
 
 def menu():
@@ -126,6 +126,8 @@ class World:
         self.hooklog = []      # names logged by the before_request hook each application registered for itself
         self.counter = 0
         self.pending = {}      # app name -> nested op for its next request
+        self.shared_answer = om.HTTPResponse('see you', 200, X_Flow='goodbye')
+        self.shared_answer.set_cookie('flash', 'bye')
         self.extra = []        # observations of sub-requests made with a derived environ
         for name, app in self.apps.items():
             self._routes(name, app)
@@ -186,6 +188,13 @@ class World:
         app.route('/only/%s/<year>' % name.lower(), 'GET', lambda year: f'report {year} of {name}')
         app.error(404, '/api')(lambda err: f'{name} has no such api call')
         app.route('/sc', 'GET', lambda: repr(app.request.get_cookie('sess', secret='secret-of-' + name)))
+
+        def shared():
+            # a prepared answer object (built once, carrying a cookie of its own) that handlers of ALL applications return;
+            # the handler puts a cookie of its application on the response first
+            app.response.set_cookie('sid', 'session-of-' + name)
+            return w.shared_answer
+        app.route('/shared', 'GET', shared)
 
         def route_hook(prefix):
             # a route hook that lets another application serve a request of its own (an internal sub-request)
@@ -254,6 +263,8 @@ class World:
                 env = wsgi.environ('GET', '/only/%s/2024' % kind[-1].lower(), qs='who=' + name, headers=h)
             elif kind == 'api404':
                 env = wsgi.environ('GET', '/api/v9', qs='who=' + name, headers=h)
+            elif kind == 'shared':
+                env = wsgi.environ('GET', '/shared', qs='who=' + name)
             elif kind == 'sca':
                 env = wsgi.environ('GET', '/sc', qs='who=' + name, headers={'Cookie': 'sess=' + self.signed_by_a()})
             elif kind == 'small':
